@@ -299,7 +299,7 @@ def run():
     for i in range(0, len(gram_rest), 27):
         items.append((gram_rest[i:i + 27], "GramStack"))
     ck.part.merge(errno_grid())
-    ck.merge(core.pmap(work, items))
+    ck.merge(core.pmap(work, items, procs=min(core.NPROC, 8) if QUICK else None))
     ck.coverage_extra = dict(max_queue_length=MAXN, all_assignments_up_to_length=FULLN, destinations=3, enumerated_passes=PASSES, queues=len(qs),
                              gramstack_max_queue_length=4, once_calls=ONCE_CALLS, transient_errnos=TRANSIENT)
     ck.assumptions = [
